@@ -195,8 +195,8 @@ def samp_b(repo: Repo) -> List[Ob]:
             if isinstance(n, ast.Call) and isinstance(n.func, ast.Name) and n.func.id == "setattr" and len(n.args) >= 2 \
                     and isinstance(n.args[1], ast.Constant) and n.args[1].value == "_key":
                 obs.append(bad("SAMP-b", fi, "writes-_key", P, n, "setattr(..., '_key', ...)"))
-    if writers < 3:
-        raise AnalysisError("SAMP-b: fewer than 3 writes of Config._key found")
+    if writers < 2:
+        raise AnalysisError("SAMP-b: fewer than 2 writes of Config._key found")
 
     # (2) getter: split-and-store on every path, returned part differs from stored part
     g = repo.func("Config.random_key")
